@@ -37,8 +37,8 @@ def _tokens(s, literals):
         if c in WS:
             i += 1
             continue
-        if c in "\n\r\f\v":
-            raise Reject("newline")
+        if c in "\n\r\f\v" or ord(c) > 127:
+            raise Reject("newline or non-ASCII character")
         for l in lits:
             if s.startswith(l, i):
                 # a keyword literal ending in "(" only counts when what precedes is
@@ -107,8 +107,8 @@ def _einsum_tokens(s):
         if c in WS:
             i += 1
             continue
-        if c in "\n\r\f\v":
-            raise Reject("newline")
+        if c in "\n\r\f\v" or ord(c) > 127:
+            raise Reject("newline or non-ASCII character")
         if s.startswith("take(", i) and (i == 0 or not (s[i - 1].isalnum() or s[i - 1] == "_")):
             toks.append(("LIT", "take("))
             i += 5
@@ -217,8 +217,8 @@ def _kw_tokens(s, kws):
         if c in WS:
             i += 1
             continue
-        if c in "\n\r\f\v":
-            raise Reject("newline")
+        if c in "\n\r\f\v" or ord(c) > 127:
+            raise Reject("newline or non-ASCII character")
         hit = None
         for k in sorted(kws, key=len, reverse=True):
             if s.startswith(k, i) and (i == 0 or not k[0].isalpha() or
